@@ -115,11 +115,12 @@ def mergeOp (parent child itParent itChild probes : String) : String :=
 /-! ### the process: families of extractors on several documents -/
 open Tabula.Builder Tabula.Process Tabula.OptHeap
 
-/-- `<pages or x>:<f|r>:<format letter>:<messy bits or ->` -/
+/-- `<pages or x or y>:<f|r>:<format letter>:<messy bits or ->`; `x` = the file is refused when it is
+opened, `y` = it opens and its page tree cannot be read (`World.pageCount = none` on an open reader) -/
 def parseDoc (s : String) : Option Doc :=
   match s.splitOn ":" with
   | [n, base, fmt, messy] => do
-    let world : World ← (if n == "x" then some ⟨false, none⟩ else n.toNat?.map fun k => ⟨true, some k⟩)
+    let world : World ← (if n == "x" then some ⟨false, none⟩ else if n == "y" then some ⟨true, none⟩ else n.toNat?.map fun k => ⟨true, some k⟩)
     let f : Fmt ← (match fmt with
       | "p" => some .pdf | "d" => some .docx | "o" => some .odt | "x" => some .xlsx
       | "t" => some .pptx | "h" => some .html | "e" => some .epub | _ => none)
